@@ -3,9 +3,10 @@ package drv
 import (
 	"encoding/json"
 	"fmt"
-	"regexp"
 	"sort"
 	"strings"
+
+	"verif/sim/c12model"
 
 	"github.com/cloudwego/thriftgo/generator"
 	"github.com/cloudwego/thriftgo/generator/backend"
@@ -17,21 +18,11 @@ import (
 // real FileManager, checked against a relational reference model that says
 // exactly what the statement says and is silent where it is silent.
 
-type C12Item struct {
-	Name    string `json:"name,omitempty"` // "" = unnamed patch
-	IP      string `json:"ip,omitempty"`   // insertion point (patches)
-	IPSet   bool   `json:"ip_set,omitempty"`
-	Content string `json:"content"`
-}
-
-type C12Feed struct {
-	Src   string    `json:"src"`
-	Items []C12Item `json:"items"`
-}
-
-type C12Work struct {
-	Feeds []C12Feed `json:"feeds"`
-}
+type (
+	C12Item = c12model.Item
+	C12Feed = c12model.Feed
+	C12Work = c12model.Work
+)
 
 type c12Driver struct{}
 
@@ -131,228 +122,6 @@ func (c12Driver) Gen(seed uint64, tier string) *simrt.Spec {
 	return sp
 }
 
-// ---- reference model ----
-//
-// The model is relational.  It follows the submissions in order and keeps a
-// table of the files of the assembled output (name, submitted content, patches).
-// The spelling of a fresh name is not specified by the statement, so the model
-// reads it off the response: a kept file whose submitted name is taken is bound
-// to a not-yet-bound response entry whose content has the submitted content's
-// literal text in order (contents carry unique nonces).  Everything else — which
-// files are kept or dropped, which patches go where, in what order, what the
-// final text is, that names are pairwise distinct and fresh — is the model's.
-
-var c12MarkerRe = regexp.MustCompile(`@@thriftgo_insertion_point\(([$.0-9a-zA-Z_]*)\)`)
-var c12MarkerLike = regexp.MustCompile(`@@thriftgo_insertion_point`)
-
-type c12Entry struct {
-	name        string
-	submitted   string // submitted name
-	renamedFrom string // "" if it holds its submitted name
-	content     string
-	patches     map[string][]string // point -> patch texts in submission order
-	respIdx     int
-}
-
-type c12Verdict struct {
-	class, sig, msg string
-	undefined       string
-	feedErrAt       int // >=0: that Feed call must return an error and end the history
-	kept, dropped, renamed int
-}
-
-func (e *c12Entry) expected() string {
-	return c12MarkerRe.ReplaceAllStringFunc(e.content, func(mk string) string {
-		p := c12MarkerRe.FindStringSubmatch(mk)[1]
-		return strings.Join(e.patches[p], "")
-	})
-}
-
-// skeleton matches any text that contains the literal segments of content in order.
-func skeleton(content string) *regexp.Regexp {
-	segs := c12MarkerRe.Split(content, -1)
-	var sb strings.Builder
-	sb.WriteString(`(?s)^`)
-	for i, sg := range segs {
-		if i > 0 {
-			sb.WriteString(`.*`)
-		}
-		sb.WriteString(regexp.QuoteMeta(sg))
-	}
-	sb.WriteString(`$`)
-	return regexp.MustCompile(sb.String())
-}
-
-// judgeC12 runs the model over the history against the response.
-func judgeC12(w *C12Work, resp *plugin.Response) *c12Verdict {
-	v := &c12Verdict{feedErrAt: -1}
-	var table []*c12Entry
-	byName := map[string]*c12Entry{}
-	bound := map[int]bool{}
-	var rnames []string
-	var rcontents []string
-	if resp != nil {
-		for _, g := range resp.Contents {
-			rnames = append(rnames, g.GetName())
-			rcontents = append(rcontents, g.Content)
-		}
-	}
-	// names ever submitted with two different contents: named patches to them are outside the defined domain
-	contents := map[string]map[string]bool{}
-	for _, fd := range w.Feeds {
-		for _, it := range fd.Items {
-			if it.Name != "" && it.IP == "" {
-				if contents[it.Name] == nil {
-					contents[it.Name] = map[string]bool{}
-				}
-				contents[it.Name][it.Content] = true
-			}
-		}
-	}
-	bad := func(class, sig, f string, a ...interface{}) *c12Verdict {
-		if v.class == "" {
-			v.class, v.sig, v.msg = class, sig, fmt.Sprintf(f, a...)
-		}
-		return v
-	}
-	for fi, fd := range w.Feeds {
-		var last *c12Entry
-		lastSet, lastDropped := false, false
-		for _, it := range fd.Items {
-			if it.Name == "" {
-				if !lastSet {
-					v.feedErrAt = fi
-					return v
-				}
-				if c12MarkerLike.MatchString(it.Content) {
-					v.undefined = "patch text contains marker-like text"
-					return v
-				}
-				if lastDropped || last == nil {
-					continue
-				}
-				last.patches[it.IP] = append(last.patches[it.IP], it.Content)
-				continue
-			}
-			if it.IP != "" {
-				e := byName[it.Name]
-				if e == nil {
-					v.undefined = "named patch for a name that does not exist yet"
-					return v
-				}
-				if len(contents[it.Name]) > 1 || e.renamedFrom != "" {
-					v.undefined = "named patch for a name that is in conflict"
-					return v
-				}
-				if c12MarkerLike.MatchString(it.Content) {
-					v.undefined = "patch text contains marker-like text"
-					return v
-				}
-				e.patches[it.IP] = append(e.patches[it.IP], it.Content)
-				last, lastSet, lastDropped = e, true, false
-				continue
-			}
-			// a named file
-			lastSet = true
-			holder := byName[it.Name]
-			if holder == nil {
-				e := &c12Entry{name: it.Name, submitted: it.Name, content: it.Content, patches: map[string][]string{}, respIdx: -1}
-				if resp != nil {
-					for i, n := range rnames {
-						if n == it.Name && !bound[i] {
-							e.respIdx = i
-							bound[i] = true
-							break
-						}
-					}
-					if e.respIdx < 0 {
-						return bad("missing-file", "missing-file", "file %q (first of its name) is not in the response", it.Name)
-					}
-				}
-				table = append(table, e)
-				byName[it.Name] = e
-				last, lastDropped = e, false
-				v.kept++
-				continue
-			}
-			if holder.content == it.Content {
-				last, lastDropped = nil, true
-				v.dropped++
-				continue
-			}
-			// different content: kept under a fresh unique name — unless it repeats a renamed sibling of the same name
-			sibling := false
-			for _, e := range table {
-				if e.renamedFrom == it.Name && e.content == it.Content {
-					sibling = true
-				}
-			}
-			idx := -1
-			if resp != nil {
-				sk := skeleton(it.Content)
-				for i := range rnames {
-					if !bound[i] && sk.MatchString(rcontents[i]) {
-						idx = i
-						break
-					}
-				}
-			}
-			if idx < 0 {
-				if sibling || resp == nil {
-					last, lastDropped = nil, true
-					v.dropped++
-					continue
-				}
-				return bad("missing-file", "missing-file", "a later file submitted as %q with content different from the existing one is not in the response under any name", it.Name)
-			}
-			fresh := rnames[idx]
-			if other, taken := byName[fresh]; taken {
-				sig := "duplicate-name"
-				if other.renamedFrom == "" {
-					sig = "duplicate-name:fresh-name-equals-independently-submitted-name"
-				}
-				return bad("duplicate-name", sig, "a later %q was kept under the name %q, which is already the name of another file of the output", it.Name, fresh)
-			}
-			e := &c12Entry{name: fresh, submitted: it.Name, renamedFrom: it.Name, content: it.Content, patches: map[string][]string{}, respIdx: idx}
-			bound[idx] = true
-			table = append(table, e)
-			byName[fresh] = e
-			last, lastDropped = e, false
-			v.kept++
-			v.renamed++
-		}
-	}
-	if resp == nil {
-		return v
-	}
-	seen := map[string]bool{}
-	for _, n := range rnames {
-		if seen[n] {
-			return bad("duplicate-name", "duplicate-name", "the response holds two files named %q", n)
-		}
-		seen[n] = true
-	}
-	for i := range rnames {
-		if !bound[i] {
-			return bad("extra-file", "extra-file", "the response holds %q, which corresponds to no kept submission (a duplicate that should have been dropped, or a foreign file)", rnames[i])
-		}
-	}
-	for _, e := range table {
-		exp := e.expected()
-		if rcontents[e.respIdx] != exp {
-			cls := "wrong-content"
-			if e.renamedFrom != "" {
-				cls = "wrong-content-renamed"
-			}
-			return bad(cls, cls, "file %q (submitted as %q): got %q want %q", e.name, e.submitted, clip(rcontents[e.respIdx]), clip(exp))
-		}
-		if c12MarkerRe.MatchString(rcontents[e.respIdx]) {
-			return bad("marker-left", "marker-left", "file %q still contains an insertion-point marker", e.name)
-		}
-	}
-	return v
-}
-
 func (c12Driver) Run(spec *simrt.Spec, agg *Agg, keep bool) *Outcome {
 	var work C12Work
 	_ = json.Unmarshal(spec.Driver, &work)
@@ -412,15 +181,15 @@ func (c12Driver) Run(spec *simrt.Spec, agg *Agg, keep bool) *Outcome {
 		}
 	}
 	// first pass without a response: is the history defined, does it have to end in an error?
-	pre := judgeC12(&work, nil)
-	if pre.undefined != "" {
+	pre := c12model.Judge(&work, nil, nil)
+	if pre.Undefined != "" {
 		agg.Count("runs.outside-defined-domain", 1)
 		return o
 	}
-	if pre.feedErrAt >= 0 {
+	if pre.FeedErrAt >= 0 {
 		agg.Count("probe.leading-unnamed-patch", 1)
-		if feedErr == nil || errAt != pre.feedErrAt {
-			return fail("no-target-accepted", "no-target-accepted", "Feed call %d starts with an unnamed patch but no error was returned at that call (error=%v at call %d)", pre.feedErrAt, feedErr, errAt)
+		if feedErr == nil || errAt != pre.FeedErrAt {
+			return fail("no-target-accepted", "no-target-accepted", "Feed call %d starts with an unnamed patch but no error was returned at that call (error=%v at call %d)", pre.FeedErrAt, feedErr, errAt)
 		}
 		o.Nontrivial = true
 		o.CaseKey = "err|" + string(spec.Driver)
@@ -429,27 +198,34 @@ func (c12Driver) Run(spec *simrt.Spec, agg *Agg, keep bool) *Outcome {
 	if feedErr != nil {
 		return fail("spurious-feed-error", "spurious-feed-error", "Feed call %d returned %v for a well-formed submission", errAt, feedErr)
 	}
-	v := judgeC12(&work, resp)
-	if v.undefined != "" {
+	var rfs []c12model.RespFile
+	for _, g := range resp.Contents {
+		rfs = append(rfs, c12model.RespFile{Name: g.GetName(), Content: g.Content})
+	}
+	if rfs == nil {
+		rfs = []c12model.RespFile{}
+	}
+	v := c12model.Judge(&work, rfs, nil)
+	if v.Undefined != "" {
 		agg.Count("runs.outside-defined-domain", 1)
 		return o
 	}
-	if v.class != "" {
-		return fail(v.class, v.sig, "%s", v.msg)
+	if v.Class != "" {
+		return fail(v.Class, v.Sig, "%s", v.Msg)
 	}
-	if v.renamed > 0 {
+	if v.Renamed > 0 {
 		agg.Count("probe.renamed", 1)
 	}
-	if v.dropped > 0 {
+	if v.Dropped > 0 {
 		agg.Count("probe.dropped-duplicate", 1)
 	}
 	if nNamedPatches > 0 {
 		agg.Count("probe.named-patch", 1)
 	}
-	agg.State(fmt.Sprintf("kept=%d dropped=%d renamed=%d patches=%d named=%d", bucket(v.kept), bucket(v.dropped), bucket(v.renamed), bucket(nPatches), bucket(nNamedPatches)))
+	agg.State(fmt.Sprintf("kept=%d dropped=%d renamed=%d patches=%d named=%d", bucket(v.Kept), bucket(v.Dropped), bucket(v.Renamed), bucket(nPatches), bucket(nNamedPatches)))
 	o.Nontrivial = nItems >= 2
 	o.CaseKey = string(spec.Driver)
-	o.Detail, _ = json.Marshal(map[string]interface{}{"feeds": len(work.Feeds), "items": nItems, "kept": v.kept, "dropped": v.dropped, "renamed": v.renamed, "patches": nPatches})
+	o.Detail, _ = json.Marshal(map[string]interface{}{"feeds": len(work.Feeds), "items": nItems, "kept": v.Kept, "dropped": v.Dropped, "renamed": v.Renamed, "patches": nPatches})
 	return o
 }
 
